@@ -745,7 +745,7 @@ def systematic(ctx, hcmd, dcmd, small, label):
         exh[" / ".join(conf)] = {"preemption_bound": bound, "schedules": n, "exhausted": g.exhausted}
     ctx.cov.setdefault("systematic", {}).update(exh)
     ctx.cov["exhaustive"] = all(v["exhausted"] for v in ctx.cov["systematic"].values())
-    vlib.conc_correspondence(ctx, hcmd, dcmd, sys_runs, judge=judge, label=label)
+    vlib.conc_correspondence_batched(ctx, hcmd, dcmd, sys_runs, judge=judge, label=label, batch=30000)
 
 
 def small_confs(ctx):
